@@ -332,6 +332,22 @@ func c15TogetherBody(capacity uint32, second string) func() {
 		}
 		vrt.Quiet(false)
 		sa, sb := w.held[0], w.held[1]
+		if second == "session-closed" {
+			// the client session is closed (Session.Close has RETURNED) - its teardown, which closes the streams, is posted
+			// to the event loop and may not have run yet; then the caller gives its stream back and asks for one
+			closed := false
+			t1 := vrt.GoProc("session-closer", 1, func() { w.p.c.Close(); closed = true })
+			t2 := vrt.GoProc("caller0", 1, func() {
+				vrt.Point("wait-closed", func() bool { return closed })
+				w.held[0] = nil
+				w.sm.PutBack(sa)
+				w.get(0) // (the hand-out oracle: not a stream of a closed session)
+			})
+			vrt.WaitThreads(t1, t2)
+			vrt.WaitIdle(vrt.Second)
+			vrt.Outcome(fmt.Sprintf("closed-session gets=%d held=%v", w.gets, w.held[0] != nil))
+			return
+		}
 		ths := []*vrt.Thread{vrt.GoProc("caller0", 1, func() { w.held[0] = nil; w.sm.PutBack(sa) })}
 		if second == "put" {
 			ths = append(ths, vrt.GoProc("caller1", 1, func() { w.held[1] = nil; w.sm.PutBack(sb) }))
@@ -539,6 +555,7 @@ func TestVerif_C15(t *testing.T) {
 		{"C15/putback-together-cap1", c15TogetherBody(1, "put")},
 		{"C15/putback-together-cap2", c15TogetherBody(2, "put")},
 		{"C15/putback-while-get-cap1", c15TogetherBody(1, "get")},
+		{"C15/putback-get-after-session-close", c15TogetherBody(2, "session-closed")},
 	} {
 		o := vrt.Options{Bound: b, StepLimit: 50000, ShardI: w.shardI, ShardN: w.shardN}
 		w.explore(fmt.Sprintf("%s-bound%d", sc.name, b), nil, o, sc.body)
